@@ -62,7 +62,11 @@ class TemplateMaskCache:
     def get(self, backend: Backend) -> tuple[_Template, _Mask] | None:
         if out := self._dict.get(backend):
             return out
-        if val := next(iter(self._dict.values()), None):
+        # NOTE: tasks sharing a model run concurrently. Copy the values before using
+        # them so that an insertion by another thread cannot break the iteration.
+        values = list(self._dict.values())
+        if values:
+            val = values[0]
             self._dict[backend] = out = backend.asarray(val[0]), backend.asarray(val[1])
             return out
         return None
